@@ -23,16 +23,17 @@ import common as C  # noqa: E402
 import dates as D   # noqa: E402
 from floatcmp import f2b, b2f  # noqa: E402
 from parallel import driver_parallel  # noqa: E402
+from props import c06h as H6  # noqa: E402   (growth round 6: basis swaps as wholes, future -> FRA, legacy package)
 
 # Gen/SwapsF, Gen/SwapsR: loop bodies / after-loop blocks / pv01 / swap_rate cut out of the source by tools/py2lean/registry/swaps.py;
 # Gen/RatesR (shared with C01): IborDeposit.value, IborFRA.value.  Props/C06e proves hand model = generated.
-GEN = ['SwapsF', 'SwapsR', 'RatesR']
+GEN = ['SwapsF', 'SwapsR', 'RatesR', 'BasisR']
 PROPS = ['FinVerif.Props.C06a', 'FinVerif.Props.C06b', 'FinVerif.Props.C06c', 'FinVerif.Props.C06d',
-         'FinVerif.Props.C06e', 'FinVerif.Props.C06f', 'FinVerif.Props.C06g']
+         'FinVerif.Props.C06e', 'FinVerif.Props.C06f', 'FinVerif.Props.C06g', 'FinVerif.Props.C06h']
 DRIVERS = ['FinVerif.Driver.C06']
 GEN_DRIVERS = ['FinVerif.Driver.C06Gen']      # folds of the generated loop bodies (needs Gen/SwapsF)
 SPEC_DRIVERS = ['FinVerif.Driver.C06Spec']
-EXTRA_FILES = ['FinVerif/Lemmas/C06.lean', 'FinVerif/Model/C06.lean', 'FinVerif/Model/C06x.lean', 'FinVerif/Spec/C06.lean',
+EXTRA_FILES = ['FinVerif/Lemmas/C06.lean', 'FinVerif/Model/C06.lean', 'FinVerif/Model/C06x.lean', 'FinVerif/Model/C06h.lean', 'FinVerif/Spec/C06.lean',
                'FinVerif/Spec/C06x.lean']
 
 RTOL = 1e-10
@@ -1891,6 +1892,9 @@ COMPONENTS = [
     ('ibor_swap', ibor_swap_case, 300, 2400),
     ('ois', ois_case, 150, 1200),
     ('basis_swap', basis_case, 60, 500),
+    ('ibor_basis_whole', H6.ibor_basis_whole_case, 50, 450),
+    ('ois_basis_whole', H6.ois_basis_whole_case, 70, 600),
+    ('future_fra', H6.future_case, 80, 700),
     ('equity_swap', equity_swap_case, 160, 1300),
     ('deposit', deposit_case, 120, 1000),
     ('fra', fra_case, 120, 1000),
@@ -1913,6 +1917,7 @@ def run(ctx):
     pool = make_pool(E, ctx.rng('pool'))
     B, T = Batch(), Tally()
     witnesses(ctx, E)
+    H6.legacy_package(ctx)
     reuse_oracle(ctx, E)
     curve_par_rate_oracle(ctx, E, pool)
     for name, fn, nq, nt in COMPONENTS:
@@ -1927,8 +1932,12 @@ def run(ctx):
         'the loop bodies, after-loop blocks, pv01 / swap_rate methods and deposit / FRA values of the hand model are proved equal '
         'to the functions the translator generates from the current source (Props/C06e); the fold skeleton around them '
         '(initial values, order of the periods, notional fill) is tied by the correspondence only',
-        'cross-currency swap classes (products/rates/swaps/Fin*XCcySwap.py) do not import in this tree (legacy module paths): '
-        'a leg with notional exchange is SwapFixedLeg / SwapFloatLeg with `principal`, which is modelled',
+        'cross-currency swap classes (products/rates/swaps/Fin*XCcySwap.py, FinIborIborSwap.py) do not import in this tree (legacy module '
+        'paths; finding C06/legacy-swaps-package-unimportable, the four imports are tried on every run): a leg with notional exchange is '
+        'SwapFixedLeg / SwapFloatLeg with `principal`, which is modelled',
+        'the glue of IborBasisSwap / OISBasisSwap (value = leg 1 + leg 2, second leg type, arguments handed to SwapFloatLeg) and of '
+        'IborFuture.to_fra is generated from the source (Gen/BasisR) and proved equal to the hand model (Props/C06h); the schedules '
+        'of the two legs are tied by the correspondence (ops GEN, BAS)',
     ]
     return C.finish(ctx, 'proof',
                     'lake build ' + ' '.join(PROPS) + ' && lake env lean .cache/audit/Audit_C06.lean',
